@@ -99,6 +99,36 @@ def specDecodeOK (parseOK tzOK : Bool) (c : Conf) (o : DecodeObs) : Bool :=
   | .rejected =>
     !(parseOK && tzOK && (confDays c).toList.all mustAccept)  -- there is a reason
 
+/-! ### Requests on a long-lived filter
+
+The property fixes the answer at an instant by that instant's wall clock and
+the schedule in force at that instant.  So for a request at `now`, whatever
+requests, updates or clock readings came before: a list of blocked services is
+in force exactly when its own pause schedule is NOT in effect at `now`; the
+client's own list (if it has one) replaces the global one. -/
+
+def specRequestOK (offG offC : Int → Int) (s : ReqState) (clientSite : Bool) (now : Instant)
+    (obs : Nat × Nat) : Bool :=
+  let useClient := clientSite && s.client.isSome
+  obs.1 == (if !useClient && !decide (InEffect offG s.global.sched now) then s.global.nIDs else 0) &&
+  obs.2 == (match s.client with
+    | some c => if clientSite && !decide (InEffect offC c.sched now) then c.nIDs else 0
+    | none => 0)
+
+/-- The configuration in force after a history of operations, read off the
+history declaratively: the last update (with the last later `set` of its IDs),
+the last client change. -/
+def lastGlobal : List ReqOp → SvcConf → SvcConf
+  | [], g => g
+  | .update g' :: rest, _ => lastGlobal rest g'
+  | .setIDs n :: rest, g => lastGlobal rest { g with nIDs := n }
+  | .client _ :: rest, g => lastGlobal rest g
+
+def lastClient : List ReqOp → Option SvcConf → Option SvcConf
+  | [], c => c
+  | .client c' :: rest, _ => lastClient rest c'
+  | _ :: rest, c => lastClient rest c
+
 /-! ### Prop-level definitions used by the theorems -/
 
 /-- A schedule as the decoders produce it. -/
